@@ -350,7 +350,8 @@ class NF(object):
                 return None
             if ne:
                 out.append((k, ne))
-            self._need("pos", self.atoms[k] if k in self.atoms else tm.var(k[2:]))
+            kind = "nonneg" if (lf_is_const(e) and lf_constpart(e) > 0) else "pos"
+            self._need(kind, self.atoms[k] if k in self.atoms else tm.var(k[2:]))
         return tuple(out)
 
     def _poly_frac_pow(self, p, e, term_of_poly):
@@ -380,7 +381,7 @@ class NF(object):
         if key not in self.atoms:
             self.atoms[key] = self.poly_to_term(P)
             self.bpoly[key] = P
-        self._need("pos", self.atoms[key])
+        self._need("nonneg" if (lf_is_const(e) and lf_constpart(e) > 0) else "pos", self.atoms[key])
         cp = lf_constpart(e)
         n = cp.numerator // cp.denominator
         f = lf_add(e, lf_const(-n))
